@@ -31,7 +31,8 @@ CAUSES = {
     # "close-early": the application stops the node before the connection is Open; the peer, which cannot know,
     # goes on with the handshake and answers a DPR if it gets one
     # "starting": the deviations cover start() itself and the handshake (client role), then a plain local close
-    "starting": ["close"],
+    # "close-during-start": another application thread calls close() half a second into start()
+    "starting": ["close", "close-during-start"],
     # "close-early-silent": the same, but the peer stays silent (never accepts / never answers the CER)
     "connecting": ["refuse", "close-early", "close-early-silent"],
     "await-cea": ["eof", "rst", "non-cea", "close-early", "close-early-silent"],
@@ -87,7 +88,30 @@ class Termination(explore.Scenario):
             # the peer is there before the node starts (a listening socket completes the connection at once)
             early_pt = T(target=n.peer_handshake, name="peer-handshake")
             early_pt.start()
-        app_t = start_node()
+            if cause == "close-during-start":
+                def closer():
+                    import bromelia.exceptions as X
+                    n.tm.sleep(0.6)
+                    for _attempt in range(8):
+                        try:
+                            d.close()
+                            return
+                        except BaseException as e:  # noqa
+                            if isinstance(e, shims.sched.Abort):
+                                raise
+                            if type(e).__module__ != X.__name__:
+                                obs["closer_leak"] = f"{type(e).__name__}: {e}"
+                                return
+                        # refused (the state machine has not left Closed yet): the application tries again
+                        n.tm.sleep(0.5)
+                T(target=closer, name="app-closer").start()
+        try:
+            app_t = start_node()
+        except BaseException as e:  # noqa
+            if isinstance(e, shims.sched.Abort) or life != "starting":
+                raise
+            app_t = None
+            obs["start_raised"] = f"{type(e).__name__}: {e}"
         if life == "connecting":
             if role == "server":
                 rt.stop("not-applicable")
@@ -116,11 +140,22 @@ class Termination(explore.Scenario):
             else:
                 pt = T(target=n.peer_handshake, name="peer-handshake")
                 pt.start()
-            pt.join()
-            if app_t is not None:
-                app_t.join()
-            if not n.wait_open():
-                rt.stop("handshake-failed")
+            if cause == "close-during-start":
+                # the connection may or may not have come up before the close: either way the node ends Closed
+                n.settle(rt.stall_time + 6.0)
+                if n.state() != "Closed":
+                    h = None
+                    dprs = [m for m in node.split_stream(n.peer.received())[0] if node.header_of(m)["code"] == 282] if n.peer.conn else []
+                    if dprs:
+                        h = node.header_of(dprs[-1])
+                        n.peer.send(node.dpa(h["hbh"], h["e2e"]))
+                    n.settle(8.0)
+            else:
+                pt.join()
+                if app_t is not None:
+                    app_t.join()
+                if not n.wait_open():
+                    rt.stop("handshake-failed")
             n.settle(1.5)
             if life == "open-inbound":
                 n.peer.send(node.app_request(1) + node.app_request(2))
@@ -312,7 +347,7 @@ def plan(tier):
     deep = {("client", "open-idle", "close"), ("server", "open-consumer", "eof"), ("server", "open-idle", "dpr"),
             ("client", "open-outbound", "close"), ("client", "await-cea", "eof"), ("server", "closing", "eof"),
             ("client", "open-sender", "close"), ("server", "open-sender", "eof"), ("server", "open-outbound", "rst"),
-            ("client", "await-cea", "close-early"), ("server", "accepted", "eof"), ("client", "starting", "close")}
+            ("client", "await-cea", "close-early"), ("server", "accepted", "eof"), ("client", "starting", "close"), ("client", "starting", "close-during-start")}
     for p in all_cases():
         key = (p["role"], p["life"], p["cause"])
         if tier == "quick":
